@@ -86,7 +86,7 @@ Proof.
   intros Hp Hd Hn Hop.
   rewrite <- (Qcompare_comp _ _ (Qeq_refl (Qval m e)) _ _ (Qval_int n)), <- dyadic_compare_is_Qcompare.
   rewrite (compare_alone p op _ _ OpInt (RInt n) (rel_holds op (f64_compare_Z (FFin m e) n)) None Hp Hd);
-    [reflexivity|cbn; rewrite Hn; reflexivity|apply int_apply_float; assumption].
+    [reflexivity|cbn; rewrite Hn; reflexivity|apply int_apply_float; [assumption|eapply parse_int_range; exact Hn]].
 Qed.
 
 Theorem c03_float_dec p op t m e m' e' :
